@@ -149,6 +149,35 @@ fn main() -> int {
 shadow main { assert true }
 """
 
+# a heap value nested 3000 levels deep, built in a loop and dropped: releasing it recurses once per level inside the VM, on
+# the C stack of the thread that serves the session (standalone: the main thread)
+GOOD["nest"] = """
+struct Node {
+    val: int,
+    kids: array<Node>
+}
+fn build(n: int) -> Node {
+    let empty: array<Node> = []
+    let mut cur: Node = Node { val: 0, kids: empty }
+    let mut i: int = 1
+    while (< i n) {
+        let mut ks: array<Node> = []
+        set ks (array_push ks cur)
+        set cur (Node { val: i, kids: ks })
+        set i (+ i 1)
+    }
+    return cur
+}
+shadow build { assert true }
+fn main() -> int {
+    let top: Node = (build 3000)
+    (println (+ "W7:top " (int_to_string top.val)))
+    (println "W7:chain built")
+    return 0
+}
+shadow main { assert true }
+"""
+
 LOOPS = {
     # never terminate by themselves; the daemon's NLVERIF_FUEL budget (hook H1) ends them
     "loop_silent": """
@@ -232,6 +261,24 @@ def hostile_modules(base):
         H["fn_name_idx_oob"] = patched([(off + 0, "<I", 0x00FFFFFF), (last + 0, "<I", 0x00FFFFFF)])
         H["fn_locals_huge"] = patched([(last + 14, "<H", 0xFFFF)])
         H["no_functions"] = patched([(32 + 12 * i + 8, "<I", 0)])         # empty function table
+    # table-growth boundaries of the loader: valid images with many (never called) imports / extra strings
+    def with_section(sec_type, data):
+        n = struct.unpack_from("<I", base, 16)[0]
+        b = bytearray(base[:32])
+        struct.pack_into("<I", b, 16, n + 1)
+        spo = struct.unpack_from("<I", base, 20)[0]
+        struct.pack_into("<I", b, 20, spo + 12 if spo else 0)
+        for i, t, off, sz in secs:
+            b += struct.pack("<III", t, off + 12, sz)
+        b += struct.pack("<III", sec_type, len(base) + 12, len(data))
+        b += base[32 + 12 * n:]
+        b += data
+        return reseal(b)
+    if len(secs) < 15:
+        for k in (31, 32, 33, 40, 64, 65, 129):
+            H["imports_%d" % k] = with_section(8, struct.pack("<IIHB", 0, 0, 0, 1) * k)
+        for k in (255, 256, 257, 600):
+            H["strings_%d" % k] = with_section(SEC_STRINGS, b"".join(struct.pack("<I", 6) + b"x%05d" % i for i in range(k)))
     H["entry_point_oob"] = patched([(12, "<I", 9999)])
     if SEC_CODE in by:
         i, off, sz = by[SEC_CODE]
